@@ -57,6 +57,13 @@ def check(run):
                     break
         run.bounded.append({"what": "native sensor_model on generic models (1..3 readings, unequal noise) vs exact rational textbook update; reading = prediction; inputs unmodified", "bound": f"{len(shapes)} shapes x 2 readings", "failures": fails, "counted_as_proved": False})
 
+    # ONE state observed by a sensor with THREE readings (H is 3x1, S is 3x3) - always run
+    run.native_runs += 1
+    op, osc = native((1, 0, 0, 3), run.seed, None)
+    run.bounded.append({"what": "native sensor_model of a one-state model with a three-reading sensor vs the exact textbook update", "bound": "1 model, one update", "failures": len(op), "counted_as_proved": False})
+    for p in op[:1]:
+        run.findings.append(Finding("C05.py.native_one_state_many_readings", "1xm", f"one state, three readings: {p}", {"language": "python", "inputs": {"shape": [1, 0, 0, 3], "seed": run.seed, "kw": {}}, "model_definition": osc.describe(), "oracle_verdict": op[:5]}, True))
+
     from checks.ekf_common import dtype_sweep, stateful_sweep
 
     dtype_sweep(run, "C05", ("posterior",))
